@@ -256,3 +256,8 @@ package frugal
 
 //@ func lib.fNatsPublisherTransport.getClosedConditionError
 //@   ensures result != nil && ttype(result) == TRANSPORT_EXCEPTION_NOT_OPEN && implements(result, "thrift.TTransportException")
+
+// TFramedTransport.Read calls itself once, on a temporary buffer of exactly the remaining frame size.
+//@ func lib.TFramedTransport.Read
+//@   decreases len(buf)
+//@   modifies *
